@@ -25,6 +25,8 @@ fn mkinst(u) { var i = Inst.new(); i.a = [u, "a" + "x"]; i.b = (u, "b"); return 
 fn mkclo(x) { return || { return x; }; }
 fn getiter(v) { return v.iter; }
 fn emptyslices(t) { var a = t[1..1]; a = nil; churn(1); var b = t[0..0]; churn(1); var c = t[2..2]; churn(1); return [b.len(), c.len(), t[1..1].len(), b == c, type(b) == type(t)]; }
+fn evict() { var t = 0; for q in [20..21, 20..22, 20..23, 20..24, 20..25, 20..26, 20..27, 20..28, 20..29, 20..30] { t = t + 1; } return t; }
+fn rangekey(u) { var m = {(u..(u + 4)): [u]}; evict(); churn(1); var t = 0; for r in m.keys() { for x in r { t = t + x; } } return [t, m.len(), m.values()]; }
 fn rsum(v) { var t = 0; for r in v { for x in r { t = t + x; } } return t; }
 fn rangeeq(u) { var a = u..(u + 3); var m = {a: [u]}; churn(1); return (a == u..(u + 3), m.has_key(u..(u + 3)), m.get(u..(u + 3))); }
 fn drain_twice(it) { var n = 0; for x in it { n = n + 1; } churn(1); for x in it { n = n + 100; } churn(1); try { it.next(); n = n + 1000; } catch e { n = n + 10; } return n; }
@@ -209,6 +211,19 @@ ROOTS["nested_capture_made_elsewhere_on_dropped_fiber"] = [
     "fn r{g}() {{", "  var f = Fiber.new(|x| {{ var l = x; var mk = || {{ return || {{ return l; }}; }}; Fiber.yield(mk); return 0; }});",
     "  var mk = f.call({H});", "  var get = mk();", "  mk = nil;", "  f = nil;", "  churn({n});", "  var l = get();", "  return {P};", "}}",
     'print(("ev", {g}, r{g}()));']
+# ... the same with a try/FINALLY (no catch) that the exception merely passes through on its way to an outer handler
+ROOTS["capture_in_try_finally_passed_by_exception"] = ["var get{g} = nil;",
+    "fn t{g}() {{ try {{ " + PADS + " var l = {H}; get{g} = || {{ return l; }}; throw [1]; }} finally {{ churn(1); }} }}",
+    "fn r{g}() {{", "  try {{ t{g}(); }} catch e {{ churn(1); }}", "  churn({n});", "  var l = get{g}();", "  return {P};", "}}", 'print(("ev", {g}, r{g}()));']
+# the closure is created inside a NESTED try statement that completes normally; the enclosing try block is then left by `return`
+ROOTS["capture_in_nested_try_then_return_through_finally"] = ["var get{g} = nil;",
+    "fn t{g}() {{ try {{ " + PADS + " var l = {H}; try {{ get{g} = || {{ return l; }}; }} catch e {{ churn(1); }} return 1; }} finally {{ churn({n}); }} }}",
+    "fn r{g}() {{", "  t{g}();", "  churn(1);", "  var l = get{g}();", "  return {P};", "}}", 'print(("ev", {g}, r{g}()));']
+# two variables of a fiber captured in DESCENDING slot order (the later-declared one first); the closure over the lower one
+# escapes and the fiber is dropped while suspended
+ROOTS["second_capture_lower_slot_on_dropped_fiber"] = ["fn r{g}() {{",
+    "  var f = Fiber.new(|x| {{ var l = x; var hi = [0]; var gethi = || {{ return hi; }}; var get = || {{ return l; }}; Fiber.yield(get); return gethi; }});",
+    "  var get = f.call({H});", "  f = nil;", "  churn({n});", "  var l = get();", "  return {P};", "}}", 'print(("ev", {g}, r{g}()));']
 GEN_ROOTS = sorted(ROOTS)
 
 # ---- operations that make the interpreter hold fresh objects mid-operation ({u} = unique number)
@@ -281,6 +296,8 @@ OPS = [
     # empty slices taken one after the other, with collections in between
     "emptyslices(({u}, [{u}], 3))",
     "emptyslices([{u}, [{u}], 3])",
+    # a range that only a map holds, as a key, while more ranges are created than the interpreter's range cache keeps
+    "rangekey({u})",
     "rsum([1..2, 1..3, 1..4, 1..5, 1..6, 1..7, 1..8, 1..9, 2..9, 3..9, 4..9, 5..9]) + {u}",
 ]
 # operations that fail: the error object is created while the operands are held only by the interpreter
